@@ -346,7 +346,10 @@ def _decide(mod, desc, opts, res, rlimit, V, ctx, claims, exc):
         elif isinstance(c, Unsat):
             unsats.append(c)
         elif isinstance(c, Note):
-            res['notes'].append(f'{c.label}: {c.text}')
+            if c.label == 'nontrivial':
+                res['nontrivial'] = True
+            else:
+                res['notes'].append(f'{c.label}: {c.text}')
 
     # -- concrete failures reported by the harness itself: confirm on a concrete run
     if fails:
